@@ -289,6 +289,7 @@ pub fn oracle(scn: &SenderScn, ctx: &Ctx, trace: &SenderTrace) {
                         let due = match o.carousel {
                             Some(CarouselSpec::DelayMs(d)) => stop + d * 1000,
                             Some(CarouselSpec::IntervalMs(d)) => stop.max(prev.start_us + d * 1000),
+                            Some(CarouselSpec::DelayMax) | Some(CarouselSpec::IntervalMax) => u64::MAX / 2,
                             None => stop,
                         };
                         let after = prev.stop_seq.unwrap_or(0);
